@@ -20,6 +20,10 @@ package c17
 
 import (
 	"context"
+	"crypto/md5"
+	"crypto/sha1"
+	"crypto/sha256"
+	"encoding/hex"
 	"fmt"
 	"os"
 	"runtime"
@@ -114,7 +118,21 @@ func (c policyCfg) inCond(status int) bool {
 
 var seqPool = []string{"s1", "s11", "5e1f", "s1::retry_counter::s1", "a-b", "S1"}
 
+// relatedSeqs: sequence ids (client text, x-lunar-sequence-id) that a key normalisation would map onto each other: a
+// long id, its first 64 and 36 bytes, its SHA-256 / SHA-1 / MD5 in hex, its lower-case form, itself with a space.
+// They are different sequences.
+var relatedSeqs = func() []string {
+	long := "Seq-7F3A-" + strings.Repeat("0123456789abcdef", 5)
+	s256, s1, m5 := sha256.Sum256([]byte(long)), sha1.Sum([]byte(long)), md5.Sum([]byte(long))
+	return []string{long, hex.EncodeToString(s256[:]), long[:64], strings.ToLower(long), hex.EncodeToString(s1[:]), hex.EncodeToString(m5[:]), long[:36], long + " "}
+}()
+
 func genSeqs(t *rapid.T) []string {
+	if rapid.IntRange(0, 3).Draw(t, "related-seqs") == 0 {
+		n := rapid.IntRange(2, 4).Draw(t, "nrel")
+		perm := rapid.Permutation(relatedSeqs[1:]).Draw(t, "rel")
+		return append([]string{relatedSeqs[0]}, perm[:n-1]...)
+	}
 	n := rapid.SampledFrom([]int{1, 2, 2, 3, 3, 4}).Draw(t, "nseq")
 	perm := rapid.Permutation(seqPool).Draw(t, "seqs")
 	return append([]string(nil), perm[:n]...)
